@@ -185,6 +185,7 @@ int Smt2newContext::init_scanner()
     else if (ib != NULL) {
         yylex_init_extra(this, &scanner);
         yy_scan_string(ib, scanner);
+        yyset_lineno(1, scanner); // a buffer made from a string does not initialise its line number
     }
     else
         return -1;
